@@ -221,13 +221,13 @@ inline IndexType adjust_point_at_index(const IndexType index, DenseMatrix& data,
             /* Try to change the current coordinate in positive direction */
             data(i, index) += learning_rate;
             new_error = compute_error_for_point(index, data, error_func_data);
-            if (new_error >= old_error)
+            if (!(new_error < old_error))
             {
                 /* Did not help - switching to negative direction */
                 data(i, index) -= 2 * learning_rate;
                 new_error = compute_error_for_point(index, data, error_func_data);
             }
-            if (new_error >= old_error)
+            if (!(new_error < old_error))
                 /* Did not help again - reverting to beginning */
                 data(i, index) += learning_rate;
             else
@@ -280,6 +280,9 @@ void manifold_sculpting_embed(RandomAccessIterator begin, RandomAccessIterator e
         {
             TAPKEE_VERIF_TICK("manifold_sculpting:rescale");
             data.topRows(target_dimension) /= squishing_rate;
+            /* Scaling can not restore the distances if the preserved features do not tell the neighbors apart */
+            if (!(average_neighbor_distance(data.topRows(target_dimension), neighbors) > 0))
+                break;
         }
         current_multiplier *= squishing_rate;
 
